@@ -28,7 +28,7 @@ def gen_graph(rng, stress):
 
     pool = []
     for _ in range(rng.randint(2, 6)):
-        k = rng.choice(["list", "dict", "set", "bytearray", "array", "array", "sparse", "estimator", "rng", "objarr"])
+        k = rng.choice(["list", "dict", "set", "bytearray", "array", "array", "sparse", "estimator", "rng", "objarr", "dtype", "scalarstate"])
         if k == "list":
             pool.append([rng.randint(0, 9)])
         elif k == "dict":
@@ -46,6 +46,15 @@ def gen_graph(rng, stress):
             pool.append(StandardScaler().fit(np.arange(6.0).reshape(3, 2)))
         elif k == "rng":
             pool.append(np.random.RandomState(rng.randint(0, 9)))
+        elif k == "dtype":
+            # distinct dtype objects (their helper arrays are temporaries of the dump); compared by value
+            counter[0] += 1
+            pool.append([np.dtype(rng.choice(["int32", "float64", ">i2", "uint8", "complex64", "<U3"])) for _ in range(rng.randint(2, 4))])
+        elif k == "scalarstate":
+            from ..objgen import U
+
+            counter[0] += 1
+            pool.append([U.ScalarState(1000.0 * counter[0] + i + 0.25) for i in range(rng.randint(2, 5))])
         else:
             oa = np.empty(2, dtype=object)
             oa[0], oa[1] = [1], "s"
